@@ -486,6 +486,35 @@ def run(prog, rep):
 
     rep.rule('R9', 'deep writers store the children of a sliver whenever it carries them', floor=4)
     check_deep_writers(prog, rep, 'R9')
+    # R11: a writer row is emitted only for an attribute that is set: set_property() builds a FRESH sliver that carries only the
+    # property being set and merges the writer's dictionary into the node, so a row written from a constructor default
+    # silently resets that property on every unrelated set_property()
+    rep.rule('R11', 'every writer row is guarded by "the attribute is set" (no row from a constructor default)', floor=30)
+    for wname in sorted(n_ for n_ in apg.methods if n_.endswith('_sliver_to_graph_properties_dict')):
+        wfn = apg.methods[wname]
+        svar = wfn.args.args[0].arg if wfn.args.args else None
+        dn_ = {r.value.id for r in walk_no_nested(wfn) if isinstance(r, ast.Return) and isinstance(r.value, ast.Name)}
+        for a in walk_no_nested(wfn):
+            if not (isinstance(a, ast.Assign) and len(a.targets) == 1 and isinstance(a.targets[0], ast.Subscript) and
+                    isinstance(a.targets[0].value, ast.Name) and a.targets[0].value.id in dn_):
+                continue
+            attrs_ = sorted({x.attr for x in ast.walk(a.value) if isinstance(x, ast.Attribute) and isinstance(x.value, ast.Name) and x.value.id == svar})
+            if not attrs_:
+                continue
+            _, cs_ = _enclosing(a, wfn)
+            guarded = False
+            for c_ in cs_:
+                for cj in conjuncts(canon(c_)):
+                    if isinstance(cj, ast.Call) and call_name(cj) == 'hasattr':
+                        continue
+                    if any(isinstance(x, ast.Attribute) and isinstance(x.value, ast.Name) and x.value.id == svar and x.attr in attrs_ for x in ast.walk(cj)):
+                        guarded = True
+            rep.instance('R11', f'{wname}: row from {attrs_} guarded by its own presence: {guarded}')
+            if not guarded:
+                rep.violation('R11', loc(apg.module, a), f'ABCPropertyGraph.{wname}', f'row {norm(a.targets[0].slice, 50)} written from {attrs_} unconditionally',
+                              f'{wname} writes {norm(a.targets[0].slice, 50)} from sliver.{attrs_[0]} whether or not it was set; set_property() on a model '
+                              f'element builds a fresh sliver holding only the property being set and merges this dictionary into the node, so the '
+                              f'constructor default of {attrs_[0]} overwrites the stored value whenever any other property is set')
     # R10: deep readers collect ALL children: the container a loop fills is created once, before the loop
     rep.rule('R10', 'deep builders create the child container once per parent (not once per child)', floor=8)
     from ..lints import containers_filled_in_loops
@@ -640,8 +669,35 @@ def check_deep_writers(prog, rep, rule):
                                       f'comes back from the graph incomplete')
 
 
+    # completeness: every child container the deep graph READER of a kind fills is written by the deep WRITER of that kind
+    CHILD_WRITER = {'attached_components_info': 'add_component_sliver', 'network_service_info': 'add_network_service_sliver',
+                    'interface_info': 'add_interface_sliver'}
+    PAIRS = {'add_network_node_sliver': 'build_deep_node_sliver', 'add_component_sliver': 'build_deep_component_sliver',
+             'add_network_service_sliver': 'build_deep_ns_sliver', 'add_interface_sliver': 'build_deep_interface_sliver'}
+    for wname, rname in PAIRS.items():
+        wf, rf = apg.methods.get(wname), apg.methods.get(rname)
+        if wf is None or rf is None:
+            raise AnalysisError(f'deep writer/reader pair {wname}/{rname} vanished')
+        read_ = {t.attr for a in ast.walk(rf) if isinstance(a, ast.Assign) for t in a.targets if isinstance(t, ast.Attribute) and t.attr in CHILD_WRITER}
+        wfi = inline(prog, apg, wf)
+        wenv = local_env(wfi)
+        for cont in sorted(read_):
+            loops_ = [l for l in ast.walk(wfi) if isinstance(l, ast.For) and any(isinstance(x, ast.Attribute) and x.attr == cont for x in ast.walk(expand(l.iter, wenv))) and
+                      any(isinstance(c, ast.Call) and call_name(c) == CHILD_WRITER[cont] for c in ast.walk(l))]
+            rep.instance(rule, f'{wname}: children in {cont} (read back by {rname}) are written: {bool(loops_)}')
+            if not loops_:
+                rep.violation(rule, loc(apg.module, wf), f'ABCPropertyGraph.{wname}', f'children in {cont} never written',
+                              f'{rname} rebuilds the {cont} of an element from the graph, but {wname} never writes the children a sliver '
+                              f'carries there ({CHILD_WRITER[cont]} is not called for them): a sliver with such children loses them on the way '
+                              f'into the graph, while the dictionary / JSON conversion keeps them')
+
+
 APGF = 'fim/graph/abc_property_graph.py'
 MUTANTS = [
+    {'name': 'sub-interfaces-not-written', 'file': APGF, 'rule': 'R9',
+     'find': "                self.add_interface_sliver(parent_node_id=interface.node_id, interface=child)\n", 'replace': "                pass\n"},
+    {'name': 'stitch-flag-written-from-default', 'file': APGF, 'rule': 'R11',
+     'find': "        if hasattr(sliver, 'stitch_node') and sliver.stitch_node is not None:", 'replace': "        if hasattr(sliver, 'stitch_node'):"},
     {'name': 'unset-map-row-dropped', 'file': APGF, 'rule': 'R4',
      'find': '        "location": ABCPropertyGraphConstants.PROP_LOCATION,\n', 'replace': ''},
     {'name': 'reader-row-dropped', 'file': APGF, 'rule': 'R2',
